@@ -15,7 +15,7 @@ ASSUMPTIONS = ["element names: ints and ASCII strings"]
 
 
 def budget(tier):
-    return 3000 if tier == "quick" else 60000
+    return 12000 if tier == "quick" else 120000
 
 
 def gen(rng, index, tier):
